@@ -211,6 +211,17 @@ pub fn tree_worker(prop: &str, tier: &str, k: usize, n: usize, ctx: &mut Ctx) {
         }
       });
       crate::clear_current_case();
+      // sorted maps with a segment far beyond its line, under pairs of replacements (found F15)
+      {
+        let mut st = Striper::new(k, n);
+        for_each_far_column_tree(tier, &mut st, &mut |w| {
+          crate::set_current_case(w);
+          ctx.states += 1;
+          ctx.count("far_column_family_trees");
+          tc::c01(ctx, w);
+        });
+        crate::clear_current_case();
+      }
       // C01 quantifies over ANY attached map: also maps whose segments are not sorted
       // (columns or lines going backwards). C17/C19 keep to sorted maps.
       for raw in ["CAAC,DAAD", "MAAA,FAAA,EAAA", "AAAA;AACA,DAAA", "KAAA,AAAA,DAAA", "EAAA;AACA;;DAAA,CAAA", "IAAA,FAAA;AAAA,KAAA,HAAA"] {
@@ -726,6 +737,70 @@ pub fn wild_contexts(t: &Term) -> [Term; 4] {
   ]
 }
 
+/// Sorted maps with a segment FAR beyond its line, under every pair of replacements, inside a
+/// ConcatSource / beneath a second ReplaceSource (see the comment in the body).
+pub fn for_each_far_column_tree(tier: &str, st: &mut Striper, visit: &mut dyn FnMut(&Term)) {
+  // sorted maps with a segment FAR beyond its line (a few columns, 2^31, u32::MAX - 1, u32::MAX),
+  // optionally followed by a segment on the next line, under every pair of replacements (nested,
+  // overlapping, with line breaks in the content) - the columns a ReplaceSource reports and returns
+  // are computed from the inner chunk's column, and a parent ConcatSource adds to what is returned
+  {
+    use crate::refcodec::Seg;
+    use crate::term::Repl;
+    let thorough = tier == "thorough";
+    let cols: &[u32] = &[3, 7, 18, 1 << 31, u32::MAX - 1, u32::MAX];
+    let kinds = [None, Some(K_A)];
+    let contents: &[&str] = if thorough { &["", "XY", "\nZ", "Y\nZ"] } else { &["", "\nZ", "Y\nZ"] };
+    let texts: &[&str] = if thorough { &["abcdef", "aa\n", "ab\ncd"] } else { &["abcdef", "aa\n"] };
+    for &text in texts {
+      let len = text.len() as u32;
+      let mut ranges: Vec<(u32, u32)> = Vec::new();
+      for s in 0..=len + 1 {
+        for e in s..=len + 1 {
+          ranges.push((s, e));
+        }
+      }
+      for &c in cols {
+        for kind in kinds {
+          for shape in 0..3 {
+            // 0: the far segment alone; 1: followed by a segment on line 2; 2: preceded by one at column 0
+            let mut segs = vec![Seg { gl: 1, gc: c, orig: kind }];
+            if shape == 1 {
+              segs.push(Seg { gl: 2, gc: 0, orig: Some(K_A) });
+            }
+            if shape == 2 {
+              segs.insert(0, Seg { gl: 1, gc: 0, orig: Some(K_A) });
+            }
+            let leaf = Term::sms(text, "far.js", trees::map_spec(segs, true));
+            for &(s1, e1) in &ranges {
+              for &(s2, e2) in &ranges {
+                if !st.mine() {
+                  continue;
+                }
+                for c1 in contents {
+                  for c2 in contents {
+                    let inner = Term::replace(leaf.clone(), vec![Repl::new(s1, e1, c1), Repl::new(s2, e2, c2)]);
+                    let mut ws = vec![Term::concat(vec![inner.clone(), Term::raw("0123456789abcdef")])];
+                    // a second ReplaceSource on top (quick: over the 3-byte text only)
+                    if thorough || len <= 3 {
+                      for (s3, e3, c3) in [(0u32, 1u32, ""), (1, 3, ""), (0, 1, "X"), (1, 1, "X"), (2, 4, "")] {
+                        ws.push(Term::replace(inner.clone(), vec![Repl::new(s3, e3, c3)]));
+                      }
+                    }
+                    for w in ws {
+                      visit(&w);
+                    }
+                  }
+                }
+              }
+            }
+          }
+        }
+      }
+    }
+  }
+}
+
 pub fn c17_tree_worker(tier: &str, k: usize, n: usize, ctx: &mut Ctx) {
   {
     let mut st = Striper::new(k, n);
@@ -821,68 +896,14 @@ pub fn c17_tree_worker(tier: &str, k: usize, n: usize, ctx: &mut Ctx) {
     }
     crate::clear_current_case();
   }
-  // sorted maps with a segment FAR beyond its line (a few columns, 2^31, u32::MAX - 1, u32::MAX),
-  // optionally followed by a segment on the next line, under every pair of replacements (nested,
-  // overlapping, with line breaks in the content) - the columns a ReplaceSource reports and returns
-  // are computed from the inner chunk's column, and a parent ConcatSource adds to what is returned
   {
-    use crate::refcodec::Seg;
-    use crate::term::Repl;
     let mut st = Striper::new(k, n);
-    let thorough = tier == "thorough";
-    let cols: &[u32] = &[3, 7, 18, 1 << 31, u32::MAX - 1, u32::MAX];
-    let kinds = [None, Some(K_A)];
-    let contents: &[&str] = if thorough { &["", "XY", "\nZ", "Y\nZ"] } else { &["", "\nZ", "Y\nZ"] };
-    let texts: &[&str] = if thorough { &["abcdef", "aa\n", "ab\ncd"] } else { &["abcdef", "aa\n"] };
-    for &text in texts {
-      let len = text.len() as u32;
-      let mut ranges: Vec<(u32, u32)> = Vec::new();
-      for s in 0..=len + 1 {
-        for e in s..=len + 1 {
-          ranges.push((s, e));
-        }
-      }
-      for &c in cols {
-        for kind in kinds {
-          for shape in 0..3 {
-            // 0: the far segment alone; 1: followed by a segment on line 2; 2: preceded by one at column 0
-            let mut segs = vec![Seg { gl: 1, gc: c, orig: kind }];
-            if shape == 1 {
-              segs.push(Seg { gl: 2, gc: 0, orig: Some(K_A) });
-            }
-            if shape == 2 {
-              segs.insert(0, Seg { gl: 1, gc: 0, orig: Some(K_A) });
-            }
-            let leaf = Term::sms(text, "far.js", trees::map_spec(segs, true));
-            for &(s1, e1) in &ranges {
-              for &(s2, e2) in &ranges {
-                if !st.mine() {
-                  continue;
-                }
-                for c1 in contents {
-                  for c2 in contents {
-                    let inner = Term::replace(leaf.clone(), vec![Repl::new(s1, e1, c1), Repl::new(s2, e2, c2)]);
-                    let mut ws = vec![Term::concat(vec![inner.clone(), Term::raw("0123456789abcdef")])];
-                    // a second ReplaceSource on top (quick: over the 3-byte text only)
-                    if thorough || len <= 3 {
-                      for (s3, e3, c3) in [(0u32, 1u32, ""), (1, 3, ""), (0, 1, "X"), (1, 1, "X"), (2, 4, "")] {
-                        ws.push(Term::replace(inner.clone(), vec![Repl::new(s3, e3, c3)]));
-                      }
-                    }
-                    for w in ws {
-                      crate::set_current_case(&w);
-                      ctx.states += 1;
-                      ctx.count("far_column_family_trees");
-                      tc::all_methods_return(ctx, &w);
-                    }
-                  }
-                }
-              }
-            }
-          }
-        }
-      }
-    }
+    for_each_far_column_tree(tier, &mut st, &mut |w| {
+      crate::set_current_case(w);
+      ctx.states += 1;
+      ctx.count("far_column_family_trees");
+      tc::all_methods_return(ctx, w);
+    });
     crate::clear_current_case();
   }
   let all = |_: &Term| true;
